@@ -323,6 +323,26 @@ Qed.
 
 End Types.
 
+(** * Python's [==] on IR trees (the generated [expr_eqb]) is symmetric: the source may write its
+      comparisons either way round *)
+
+Lemma Feqb_sym : forall x y : F, Feqb x y = Feqb y x.
+Proof.
+  intros x y. unfold Feqb, Beqb, SpecFloat.SFeqb.
+  change (SpecFloat.SFcompare (B2SF x) (B2SF y)) with (Bcompare x y).
+  change (SpecFloat.SFcompare (B2SF y) (B2SF x)) with (Bcompare y x).
+  rewrite (Bcompare_swap _ _ y x). destruct (Bcompare y x) as [[]|]; reflexivity.
+Qed.
+Lemma ty_eqb_sym : forall a b, ty_eqb a b = ty_eqb b a.
+Proof. induction a; destruct b; simpl; try reflexivity; rewrite ?IHa, ?(Z.eqb_sym n); reflexivity. Qed.
+Lemma expr_eqb_sym : forall a b, expr_eqb a b = expr_eqb b a.
+Proof.
+  induction a; destruct b; simpl; try reflexivity;
+    rewrite ?IHa, ?IHa1, ?IHa2, ?(String.eqb_sym name), ?(String.eqb_sym attribute), ?(Z.eqb_sym value),
+      ?(Feqb_sym value), ?(ty_eqb_sym element_type); try reflexivity.
+  destruct value, value0; reflexivity.
+Qed.
+
 (** * The regenerated expression printer lexes to the hand model's tokens *)
 
 Section Main.
@@ -444,6 +464,7 @@ Proof.
                  end
              end;
       cbn [ir_to_c_statement cprint_stmt cprint_assignment];
+      rewrite ?(expr_eqb_sym target), ?(expr_eqb_sym (IntegerLiteral 1));
       repeat match goal with |- context [if ?B then _ else _] => destruct B end;
       cbn [option_map map];
       first [ solve [do 3 f_equal; close]
